@@ -27,6 +27,8 @@ type RecStore struct {
 	Calls    []string
 	// Delay is applied (virtual time, through the scheduler) to every reading call.
 	Delay func(call string) time.Duration
+	// FailRange, if set, may fail a GetRange with an I/O error of the server's own store
+	FailRange func(from, to uint64) error
 }
 
 func (r *RecStore) note(ctx context.Context, call string, n uint64) {
@@ -104,6 +106,15 @@ func (r *RecStore) GetRange(ctx context.Context, from, to uint64) ([]*H, error) 
 	r.note(ctx, fmt.Sprintf("GetRange(%d,%d)", from, to), n)
 	if err := ctx.Err(); err != nil {
 		return nil, err
+	}
+	r.mu.Lock()
+	fail := r.FailRange
+	r.mu.Unlock()
+	if fail != nil {
+		if err := fail(from, to); err != nil {
+			// the server's store has a hiccup: the server gives up on this request (stream reset)
+			return nil, err
+		}
 	}
 	return r.Store.GetRange(ctx, from, to)
 }
